@@ -32,7 +32,11 @@ def double(x):
     return 2.0 * x
 
 
-FILTERS = {"negate": negate, "cumsum": cumsum, "double": double}
+def halve(x):
+    return x / 2.0
+
+
+FILTERS = {"negate": negate, "cumsum": cumsum, "double": double, "halve": halve}
 
 
 def pool(T, kind):
@@ -224,6 +228,10 @@ def run_cell(cell):
             chunks = [[(s, r) for s, r in ch if (o["nb_word_lengths"] or int((r.shape[0] - 1) / 2)) <= r.shape[0] and (o["nb_values"] or int((r.shape[0] - 1) / 2)) >= 2 and (o["nb_word_lengths"] or int((r.shape[0] - 1) / 2)) >= 1] for ch in chunks]
         inter = [c for tup in itertools.zip_longest(*chunks) for c in tup if c is not None]
         sweep(res, name, label, impl, ref, inter[cell.get("part", 0)::cell.get("parts", 1)], tol, classify, opts=o)
+        if o.get("filters") and "halve" in o["filters"]:
+            # integer-typed simulations (a model returning counts) with a real-valued filter: same values, another dtype
+            ints = [(s_.astype(np.int64), r_) for s_, r_ in inter[cell.get("part", 0)::cell.get("parts", 1)][::3]]
+            sweep(res, name, label + ",sim_dtype=int64", impl, lambda s_, r_, ref=ref: ref(s_.astype(float), r_), ints, tol, classify, opts=dict(o, sim_dtype="int64"))
         res["outcomes"].add((name, label))
         res["traces"] += 1
     res.pop("_hist", None)
@@ -234,18 +242,21 @@ def run_cell(cell):
 
 
 def replay_case(case):
-    o = case["opts"]
-    impl, ref, tol, classify = build(case["loss"], o)
+    o_full = case["opts"]
+    dt = np.int64 if o_full.get("sim_dtype") == "int64" else float
+    o = {k: v for k, v in o_full.items() if k != "sim_dtype"}
+    impl, ref0, tol, classify = build(case["loss"], o)
+    ref = (lambda s_, r_: ref0(s_.astype(float), r_)) if dt is np.int64 else ref0
     res = {"evaluations": 0, "nontrivial": 0, "transitions": 0, "stats": {}, "violations": []}
-    label = ",".join(f"{k}={v}" for k, v in sorted(o.items()))
+    label = ",".join(f"{k}={v}" for k, v in sorted(o.items())) + (",sim_dtype=int64" if dt is np.int64 else "")
     # the same object first sees the evaluations that preceded the failing one in the sweep (first and previous)
-    seq = [(np.array(a, dtype=float), np.array(b, dtype=float)) for a, b in case.get("before", [])] + [(np.array(case["sim"], dtype=float), np.array(case["real"], dtype=float))]
-    sweep(res, case["loss"], label, impl, ref, seq, tol, classify, opts=o)
+    seq = [(np.array(a, dtype=dt), np.array(b, dtype=float)) for a, b in case.get("before", [])] + [(np.array(case["sim"], dtype=dt), np.array(case["real"], dtype=float))]
+    sweep(res, case["loss"], label, impl, ref, seq, tol, classify, opts=o_full)
     return [{"key": v["key"], "what": v["what"]} for v in res["violations"]]
 
 
 def option_lattice(tier):
-    wf = [(None, None), ([1.0, 0.0], None), ([0.3, 0.7], None), (None, ["negate", None]), (None, ["cumsum", "double"]), ([0.3, 0.7], ["double", "negate"])]
+    wf = [(None, None), ([1.0, 0.0], None), ([0.3, 0.7], None), (None, ["negate", None]), (None, ["cumsum", "double"]), ([0.3, 0.7], ["double", "negate"]), (None, ["halve", "halve"])]
     out = []
     for p in (1, 2, 3):
         for w, f in wf:
@@ -264,7 +275,7 @@ def option_lattice(tier):
                 for w, fl in (wf[:1] + wf[5:] if tier == "quick" else wf[:1] + wf[2:3] + wf[5:]):
                     out.append(("msm", {"cov": cov, "std": std, "calc": calc, "weights": w, "filters": fl}))
     for h in ("silverman", "scott", 0.5):
-        for w, fl in wf[:1] + wf[3:5]:
+        for w, fl in wf[:1] + wf[3:5] + wf[6:]:
             out.append(("likelihood", {"h": h, "weights": w, "filters": fl}))
     return out
 
